@@ -80,11 +80,18 @@ def check(run: Run) -> None:
                     none = True
         run.check(none, "C03.R1", ps, stmt_of(pk), "pick happens only when at least one candidate matched", "the pick is not guarded by 'no matching lambda -> raise'")
         run.check(many, "C03.R1", ps, stmt_of(pk), "pick happens only when at most one candidate matched", "the pick is not guarded by 'several matching lambdas -> raise': one of several lambdas with the same argument names is chosen silently")
-    raises = [n for n in own_nodes(ps) if isinstance(n, ast.Raise)]
-    for r in raises:
+    raises = [(ps, n) for n in own_nodes(ps) if isinstance(n, ast.Raise)]
+    for c in calls_in(ps):
+        if isinstance(c.func, ast.Name):
+            tgt = m.lookup_target(m.resolve_dotted(ps.module, ps, c.func.id))
+            from ..model import FuncInfo as _FI
+
+            if isinstance(tgt, _FI) and tgt.module is ps.module and tgt.name.startswith("_"):
+                raises += [(tgt, n) for n in own_nodes(tgt) if isinstance(n, ast.Raise)]
+    for f_, r in raises:
         exc = r.exc.func if isinstance(r.exc, ast.Call) else r.exc
-        run.check(isinstance(exc, ast.Name) and exc.id == "ValueError", "C03.R1", ps, r, "refusals are ValueError", f"refusal raises {ast.unparse(exc)}")
-    run.floor("C03.R1", len(raises), 3, "raise statements in _parse_source_for_lambda")
+        run.check(isinstance(exc, ast.Name) and exc.id == "ValueError", "C03.R1", f_, r, "refusals are ValueError", f"refusal raises {ast.unparse(exc)}")
+    run.floor("C03.R1", len(raises), 3, "raise statements in the source scan (incl. private helpers it calls)")
 
     # ---------------- R2
     comp = good_def.value
@@ -200,30 +207,30 @@ def _check_brackets(run: Run, tt) -> None:
         run.check(ok, "C03.R4", tt, tt.node, f"'{o}' increments and '{c}' decrements the same counter", f"bracket pair {o}{c} is not tracked by one counter (open -> {inc.get(o)}, close -> {dec.get(c)}): the extent of a lambda containing such brackets is mis-measured")
     counters = set(inc.values())
     run.check(len(counters) == 3, "C03.R4", tt, tt.node, "three independent counters", f"{len(counters)} distinct counters for three bracket kinds")
-    # stop test requires every counter zero
-    rets = [n for n in own_nodes(tt) if isinstance(n, ast.Return)]
-    ok_stop = False
-    for r in rets:
-        # the enclosing if test
-        from ..model import ancestors
+    # stop test requires every counter zero: facts at the generator's bare `return`
+    from ..terms import TermCtx as _T
 
-        for a in ancestors(r):
-            if isinstance(a, ast.If):
-                zeros = set()
-                for x in ast.walk(a.test):
-                    if isinstance(x, ast.Compare) and isinstance(x.left, ast.Name) and isinstance(x.ops[0], ast.Eq) and isinstance(x.comparators[0], ast.Constant) and x.comparators[0].value == 0:
-                        zeros.add(x.left.id)
-                is_and = isinstance(a.test, ast.BoolOp) and isinstance(a.test.op, ast.And)
-                if counters and zeros >= counters and is_and:
-                    ok_stop = True
-                break
+    fa = _T(run.model, max_depth=1).analysis(tt)
+    rets = [n for n in own_nodes(tt) if isinstance(n, ast.Return)]
+    ok_stop = bool(rets)
+    for r in rets:
+        fx = Facts(fa, r)
+        zeros = set()
+        for a, pol in fx.atoms:
+            if pol and isinstance(a, ast.Compare) and isinstance(a.left, ast.Name) and isinstance(a.ops[0], ast.Eq) and isinstance(a.comparators[0], ast.Constant) and a.comparators[0].value == 0:
+                zeros.add(a.left.id)
+        ok_stop = ok_stop and bool(counters) and zeros >= counters
     run.check(ok_stop, "C03.R4", tt, tt.node, "stop condition requires all three counters to be zero", "the stop token is honoured although some bracket kind is still open: a ',' or ')' inside brackets ends the lambda early")
-    # the depth bookkeeping applies to OP tokens; comments are skipped before the yield
-    cont = [n for n in own_nodes(tt) if isinstance(n, ast.Continue)]
-    ok_c = any("COMMENT" in ast.unparse(_enclosing_if(c).test) for c in cont if _enclosing_if(c) is not None)
-    run.check(ok_c, "C03.R4", tt, tt.node, "comment tokens are dropped", "comment tokens are not skipped: text in a comment becomes part of the recovered lambda source")
+    # comments are dropped: the yield is reached only for non-comment tokens
     ys = [n for n in own_nodes(tt) if isinstance(n, (ast.Yield, ast.YieldFrom))]
     run.check(len(ys) == 1, "C03.R4", tt, tt.node, "every other token is yielded", f"{len(ys)} yield points")
+    ok_c = False
+    for y in ys:
+        fx = Facts(fa, y)
+        for a, pol in fx.atoms:
+            if isinstance(a, ast.Compare) and "COMMENT" in ast.unparse(a) and isinstance(a.ops[0], ast.Eq) and not pol:
+                ok_c = True
+    run.check(ok_c, "C03.R4", tt, tt.node, "comment tokens are dropped", "comment tokens are not skipped: text in a comment becomes part of the recovered lambda source")
 
 
 def _enclosing_if(n):
